@@ -77,3 +77,40 @@ func VerifHarness_C03_FunctionsDoNotMutate() {
 	verifrt.CheckFrames()
 	verifrt.Reach("end")
 }
+
+// C03: the collection-shaping functions on three-item inputs with repeated items (an in-place compaction or filter
+// only shows when a later item moves over an earlier, different one: [a, a, b]).
+func VerifHarness_C03_SetFunctionsDoNotMutate() {
+	verifrt.IgnorePanics()
+	t := verifFullTable()
+	menu := []string{"distinct", "isDistinct", "intersect", "exclude", "where", "select", "tail", "skip", "take", "first", "last", "all", "exists"}
+	name := menu[verifrt.Choose("fn", len(menu))]
+	verifrt.Tag("fnName", name)
+	fn, ok := t[name]
+	verifrt.Assume(ok)
+	n := verifrt.Choose("nargs", 2)
+	verifrt.Assume(fn.MinArity <= n && n <= fn.MaxArity)
+	input := make(system.Collection, 0, 4)
+	for i := 0; i < 3; i++ {
+		input = append(input, system.Integer(verifrt.NondetIntRange("in.i", 0, 1)))
+	}
+	other := system.Collection{system.Integer(verifrt.NondetIntRange("o.i", 0, 1)), system.Integer(verifrt.NondetIntRange("o.i", 0, 1))}
+	ctx := &expr.Context{ExternalConstants: map[string]any{"v": other}}
+	var args []expr.Expression
+	if n == 1 {
+		switch verifrt.Choose("arg", 3) {
+		case 0:
+			args = append(args, &expr.ExternalConstantExpression{Identifier: "v"})
+		case 1:
+			args = append(args, &verifStub{r: []system.Collection{
+				{system.Boolean(verifrt.NondetBool("crit0"))}, {system.Boolean(verifrt.NondetBool("crit1"))}, {system.Boolean(verifrt.NondetBool("crit2"))}}})
+		default:
+			args = append(args, &expr.LiteralExpression{Literal: system.Integer(verifrt.NondetIntRange("arg.i", -1, 3))})
+		}
+	}
+	verifrt.ProtectSlice("input", input)
+	verifrt.ProtectSlice("env v", other)
+	fn.Func(ctx, input, args...)
+	verifrt.CheckFrames()
+	verifrt.Reach("end")
+}
